@@ -197,11 +197,17 @@ val nth : nat -> 'a1 list -> 'a1 -> 'a1
 
 val map : ('a1 -> 'a2) -> 'a1 list -> 'a2 list
 
+val flat_map : ('a1 -> 'a2 list) -> 'a1 list -> 'a2 list
+
 val existsb : ('a1 -> bool) -> 'a1 list -> bool
 
 val forallb : ('a1 -> bool) -> 'a1 list -> bool
 
 val filter : ('a1 -> bool) -> 'a1 list -> 'a1 list
+
+val find : ('a1 -> bool) -> 'a1 list -> 'a1 option
+
+val seq : nat -> nat -> nat list
 
 type ascii =
 | Ascii of bool * bool * bool * bool * bool * bool * bool * bool
@@ -284,6 +290,8 @@ val vQ : q -> v
 val vErr : string -> v
 
 val vOk : v -> v
+
+val getZ : v -> z
 
 val getS : v -> string
 
@@ -626,6 +634,51 @@ val approx_row : row -> row -> bool
 val row_of_V : v -> row
 
 val run_export : string -> v list -> v option
+
+val val_eqb0 : val0 -> val0 -> bool
+
+type table = row list
+
+val key_of : nat list -> row -> val0 list
+
+val keys_eqb : val0 list -> val0 list -> bool
+
+val same_key : nat list -> row -> row -> bool
+
+val join : nat list -> table list -> row list list
+
+val project : nat list -> row -> row
+
+val get_intersection : nat list -> nat list -> table list -> row list list
+
+val std_cols : string list
+
+val lower_char : ascii -> ascii
+
+val lower : string -> string
+
+val index_of :
+  (string -> string -> bool) -> string -> string list -> nat -> nat option
+
+val col_index_ci : string -> nat option
+
+val find_key : nat list -> row -> table -> row option
+
+val find_all : nat list -> row -> table list -> row list option
+
+val spec_tuples : nat list -> table list -> row list list
+
+val spec_intersection : nat list -> nat list -> table list -> row list list
+
+val unique_keys : nat list -> table -> bool
+
+val tables_of_V : v -> table list
+
+val nats_of_V : v -> nat list
+
+val vtables : row list list -> v
+
+val run_many : string -> v list -> v option
 
 val vresS : string res -> v
 
